@@ -111,6 +111,14 @@ impl ImplState {
                     _ => "bad-op".into(),
                 }
             }
+            // tt.fill <first key> <count> <depth>: <count> records under consecutive keys (a big table in one operation)
+            "tt.fill" if t.len() == 4 => match (t[1].parse::<u64>(), t[2].parse::<u64>(), t[3].parse::<u8>()) {
+                (Ok(k0), Ok(n), Ok(d)) => {
+                    for i in 0..n { self.tt.store(k0.wrapping_add(i), (i % 1000) as i32, None, d, crate::transposition::Bounds::Exact); }
+                    "ok".into()
+                }
+                _ => "bad-op".into(),
+            },
             "tt.get" if t.len() == 2 => match t[1].parse::<u64>() {
                 Ok(k) => entry_text(self.tt.retrieve(k)),
                 _ => "bad-op".into(),
